@@ -346,7 +346,35 @@ func runC19(c *eng.Ctx) {
 		}
 		c.Ob("REFILL-page", eng.FuncName(fn)+" resumes-behind-cursor", okArgs, refill.Pos(), "a refill resumes behind the last name seen (exclusive) and asks for exactly the missing number of entries")
 	}
-	c.Expect("REFILL-page", 6)
+	// every entry the pattern filter swallows is counted as missed (that count is what the refill asks for)
+	if fn := c.NeedFunc("weed/filer", "(*Filer).doListPatternMatchedEntries"); fn != nil {
+		n := 0
+		for _, cl := range fn.AnonFuncs {
+			deliver := eng.Find(cl, func(in ssa.Instruction) bool {
+				call, ok := in.(*ssa.Call)
+				return ok && eng.ParamName(call.Call.Value) == "eachEntryFunc"
+			})
+			if len(deliver) == 0 {
+				continue
+			}
+			n++
+			c.Touch(cl)
+			counted := func(in ssa.Instruction) bool {
+				st, ok := in.(*ssa.Store)
+				if !ok {
+					return false
+				}
+				fv, isFV := st.Addr.(*ssa.FreeVar)
+				return isFV && fv.Name() == "missedCount"
+			}
+			hit, path := eng.Search(eng.Entry(cl), eng.IsReturn, eng.SearchOpt{Barrier: eng.Or(eng.AnyOf(deliver), counted)})
+			c.Ob("REFILL-page", eng.FuncName(fn)+" every-filtered-entry-counted", hit == nil, cl.Pos(), "an entry the name patterns reject is counted as missed, so that the page is refilled"+pathNote(P, cl, hit, path))
+		}
+		if n == 0 {
+			c.Undecided("REFILL-page", eng.FuncName(fn), fn.Pos(), "pattern filter callback not found")
+		}
+	}
+	c.Expect("REFILL-page", 7)
 
 	// (6) the generic prefix filter: the limit is tested between any two deliveries, and when it stops at the
 	// limit inside a store batch the returned cursor is the last delivered name
